@@ -120,6 +120,30 @@ func checkGiveUp(c GiveUpCase, cv *cov) (v *evid.Violation) {
 		}
 		// the bytes the source delivered before it went silent are still there
 		avail := s.pos - pos
+		if avail >= 2 && c.Want%2 == 1 {
+			// all but the last delivered byte, then a Release with that one byte still unread: it is the next byte
+			b, err2 := r.Next(avail - 1)
+			if err2 != nil || !bytes.Equal(b, src[pos:pos+avail-1]) {
+				v = evid.Failf("after %s(%d) failed with %v: Next(%d) = (%d bytes, %v), want the delivered bytes", c.Kind, c.Want, err, avail-1, len(b), err2)
+				return
+			}
+			pos += avail - 1
+			if rerr := r.Release(releaseArg(c.Pre)); rerr != nil {
+				v = evid.Failf("Release with one delivered byte unread: %v", rerr)
+				return
+			}
+			b, err2 = r.Next(1)
+			if err2 != nil || len(b) != 1 || b[0] != src[pos] {
+				v = evid.Failf("after the reader had given up on its silent source, all but one of the delivered bytes were consumed and the reader released: Next(1) = (%x, %v), want the one unread byte %02x (stream position %d)", b, err2, src[pos], pos)
+				return
+			}
+			pos++
+			if rl := r.ReadLen(); rl != 1 {
+				v = evid.Failf("ReadLen=%d after Release and Next(1)", rl)
+				return
+			}
+			avail = 0
+		}
 		if avail > 0 {
 			b, err2 := r.Next(avail)
 			if err2 != nil || !bytes.Equal(b, src[pos:pos+avail]) {
@@ -127,7 +151,7 @@ func checkGiveUp(c GiveUpCase, cv *cov) (v *evid.Violation) {
 				return
 			}
 			pos += avail
-			if rl := r.ReadLen(); rl != pos {
+			if rl := r.ReadLen(); rl != pos && avail > 0 {
 				v = evid.Failf("ReadLen=%d after consuming %d bytes", rl, pos)
 				return
 			}
